@@ -8,6 +8,7 @@ import (
 	"runtime"
 	"sync"
 	"testing"
+	"time"
 	"unsafe"
 
 	"github.com/go-netty/go-netty/utils/pool"
@@ -21,7 +22,7 @@ import (
 // C19 — buffer pool: capacity and exclusive ownership for every Get/Put history.
 
 type C19Op struct {
-	Op string `json:"op"` // get | put | putf | math
+	Op string `json:"op"` // get | getdrop (keeps the slice, drops the pointer Get returned) | gc | put | putf | math
 	N  int    `json:"n"`  // get: requested size; put: index into held list; putf: capacity; math: argument
 	L  int    `json:"l"`  // putf: length of the foreign slice (<= capacity)
 }
@@ -72,6 +73,15 @@ func c19GenOps(t *rapid.T, max int, n int, allowMath bool) []C19Op {
 		switch {
 		case k <= 3:
 			op = C19Op{Op: "get", N: c19Size(t, max, "n")}
+			if allowMath { // sequential histories only
+				switch rapid.IntRange(0, 24).Draw(t, "getk") {
+				case 0, 1, 2:
+					// buf := *pool.Get(n): the caller keeps the slice and lets go of the pointer (what channel.go does)
+					op.Op = "getdrop"
+				case 3:
+					op = C19Op{Op: "gc"}
+				}
+			}
 		case k <= 6:
 			op = C19Op{Op: "put", N: rapid.IntRange(0, 7).Draw(t, "idx")}
 		case k <= 9 || !allowMath:
@@ -308,8 +318,18 @@ func runC19(c C19Case) (out core.Outcome) {
 		}
 		for i, op := range ops {
 			switch op.Op {
-			case "get":
+			case "gc":
+				// a collection, and a moment for whatever the collector hands to the finalizer goroutine
+				runtime.GC()
+				time.Sleep(2 * time.Millisecond)
+				cls.Add("gc-between-operations")
+			case "get", "getdrop":
 				b := p.get(op.N)
+				if op.Op == "getdrop" && b != nil && b.bp != nil {
+					s := *b.bp
+					b.bp = &s // the pointer Get returned is unreachable from here on; the memory is still ours
+					cls.Add("pointer-dropped-slice-kept")
+				}
 				m.mu.Lock()
 				if b == nil {
 					m.fail(core.Viol("C19/get-nil", "Get(%d) returned nil", op.N))
